@@ -5,6 +5,7 @@ package adv
 
 import (
 	"fmt"
+	"math/bits"
 	"sort"
 
 	"github.com/bbva/qed/crypto/hashing"
@@ -31,6 +32,9 @@ type Cand struct {
 	Ops       []Op `json:"ops"`  //
 	Ask       int  `json:"ask"`  // -1: the base's own digest; >=0: pool index (members first, then non-members)
 	AutoSnap  bool `json:"auto"` // pick snapshots the way client.MembershipAutoVerify does
+	// Near > 0: the client asks about the base event's digest with bit Near-1 flipped (a digest
+	// that was never inserted but lives in the same hyper subtree when the bit is deep enough)
+	Near int `json:"near,omitempty"`
 }
 
 // World is a built log plus everything an adversarial server knows.
@@ -192,6 +196,22 @@ func (w *World) Apply(mr *protocol.MembershipResult, op Op) {
 				delete(mr.Hyper, ks[(op.A+i)%len(ks)])
 			}
 		}
+	case "hist-onpath":
+		// an extra entry for a node ON the path from the claimed leaf to the root, carrying that
+		// node's true hash (the root's is public: it is the history digest): a verifier must compute
+		// those nodes from the queried digest, never take them from the server
+		v, i := mr.QueryVersion, mr.ActualVersion
+		if v >= uint64(w.N) || i > v || mr.History == nil {
+			return
+		}
+		depth := bits.Len64(v)
+		h := uint16(op.A % (depth + 1))
+		if op.B%3 == 0 {
+			h = uint16(depth) // the root
+		}
+		idx := i >> h << h
+		val := refmodel.HistoryNodeAt(w.Ds, idx, h, v)
+		mr.History[fmt.Sprintf("%d|%d", idx, h)] = append(hashing.Digest{}, val[:]...)
 	case "splice-hist", "splice-hyper":
 		ev := op.A % w.N
 		q := ev + op.B%(w.N-ev)
@@ -218,7 +238,7 @@ var OpKinds = []string{
 	"exists", "actual", "query", "current", "key",
 	"hist-drop", "hist-flip", "hist-rename", "hist-dupkey",
 	"hyper-drop", "hyper-flip", "hyper-rename",
-	"splice-hist", "splice-hyper", "drop3",
+	"splice-hist", "splice-hyper", "drop3", "hist-onpath",
 }
 
 // NewWorld wraps a built log.
